@@ -44,7 +44,8 @@ def integrate_column(y, x=None, axis=0):
     """Integrate array along an arbitrary axis.
 
     Note:
-        This function is just a wrapper for :func:`numpy.trapz`.
+        This function is just a wrapper for :func:`numpy.trapezoid`
+        (:func:`numpy.trapz` in NumPy versions before 2.0).
 
     Parameters:
         y (ndarray): Data array.
@@ -63,7 +64,10 @@ def integrate_column(y, x=None, axis=0):
         >>> integrate_column(y, x)
         2.0
     """
-    return np.trapz(y, x, axis=axis)
+    # numpy.trapz has been renamed (NumPy 2.0) and removed (NumPy 2.4).
+    trapezoid = getattr(np, 'trapezoid', None) or np.trapz
+
+    return trapezoid(y, x, axis=axis)
 
 
 def interpolate_halflevels(x, axis=0):
